@@ -316,6 +316,44 @@ def r7_manager_not_cleared_wholesale(ctx):
     R.floor("C09.R7", n, 100, "client bodies scanned")
 
 
+PANICKY_TEXT = (r"str::<impl str>::(split_at|split_at_mut)$|String::(truncate|split_off|remove|insert|insert_str|drain|replace_range)$|"
+                r"str::traits::<impl std::ops::Index(Mut)?<.*> for str>::index(_mut)?$|std::ops::Index(Mut)?::index(_mut)?$|"
+                r"Option::<.*>::(unwrap|expect)$|Result::<.*>::(unwrap|expect)$|slice::<impl \[T\]>::(split_at|split_at_mut|copy_from_slice)$")
+
+
+def _panicky_text_scan(F, R, rule, path_pat):
+    """byte-offset surgery on text the server sent (split_at / slicing / truncate at a fixed offset) panics when the
+    offset falls inside a multi-byte character; in the client's read path a panic kills the read task without any report"""
+    n = 0
+    for b in F.real_bodies():
+        if not re.search(path_pat, b.path) or is_test_body(b):
+            continue
+        n += 1
+        for c in b.calls_to(PANICKY_TEXT):
+            nm = c.name() or ""
+            if c.exp:
+                continue
+            if re.search(r"::(unwrap|expect)$", nm):
+                continue   # R2 deals with unwrap/expect on peer numbers
+            tys = [b.locals[op_place(a)["l"]]["ty"] for a in c.args if op_place(a) is not None]
+            if re.search(r"Index(Mut)?::index(_mut)?$", nm) and not any(re.match(r"^&(mut )?(str|std::string::String)$", t) for t in tys[:1]):
+                continue
+            R.bad(rule, "%s:%s" % (fkey(b), nm.split("::")[-1]), "%s cuts text received from the server at a byte offset (%s): when the offset falls inside a multi-byte UTF-8 character this panics, the read task dies without reporting a cause and every pending call waits for its timeout" % (short(b.path), short(nm)), where(c))
+    return n
+
+
+def r8_no_panicky_text_surgery(ctx):
+    F, R = ctx.F, ctx.R
+    n = _panicky_text_scan(F, R, "C09.R8", r"^jsonrpsee_core::client::async_client::(handle_backend_messages|unparse_error|helpers::process_|read_task)")
+    R.ok("C09.R8", "no-text-surgery", "no byte-offset string surgery in the %d bodies of the client's read path" % n)
+    R.floor("C09.R8", n, 8, "bodies of the client's read path")
+
+
+def control_text_surgery(ctx):
+    from .common import control
+    control(ctx, "C09.R8", "str::split_at at a fixed offset", lambda r: _panicky_text_scan(ctx.F, r, "C09.R8", r"^verif_fixtures::"))
+
+
 def control_relock(ctx):
     from .common import control, double_lock_scan
 
@@ -327,10 +365,17 @@ def control_relock(ctx):
     control(ctx, "C09.R6", "Mutex::lock while a guard of the same mutex is alive", run)
 
 
-CONTROLS = [control_relock]
+CONTROLS = [control_relock, control_text_surgery]
 
 
-RULES = [r1_cause_before_close, r2_no_unchecked_arith_on_peer_numbers, r3_errors_reach_watcher, r4_frontend_mapping, r5_read_error, r6_no_relock, r7_manager_not_cleared_wholesale]
+
+def rcancel_receive_is_cancel_safe(ctx):
+    """the read task never drops a half-received message"""
+    from .common import read_task_receive_is_cancel_safe
+    read_task_receive_is_cancel_safe(ctx, "C09.CANCEL")
+
+
+RULES = [r1_cause_before_close, r2_no_unchecked_arith_on_peer_numbers, r3_errors_reach_watcher, r4_frontend_mapping, r5_read_error, r6_no_relock, r7_manager_not_cleared_wholesale, r8_no_panicky_text_surgery, rcancel_receive_is_cancel_safe]
 
 LEVEL_TEXT = (
     "Structural necessary conditions of clean failure handling decided from the type-checked program: the happens-before "
